@@ -442,7 +442,7 @@ def run_probe(ctx, mode, cases, out, nrand):
     V.log("[run] overlay probe mode=%s: %s" % (mode, p.stdout.strip().splitlines()[0] if p.stdout.strip() else ""))
 
 
-def std_probe(ctx, pid, *, mc, mode, trace_module, nrand, replay, rule, assumptions, nontrivial=None, chunk_events=20000):
+def std_probe(ctx, pid, *, mc, mode, trace_module, nrand, replay, rule, assumptions, nontrivial=None, chunk_events=20000, extra=None):
     trace = ctx.path("trace.ndjson")
     ncases = 0
     if replay:
@@ -467,11 +467,54 @@ def std_probe(ctx, pid, *, mc, mode, trace_module, nrand, replay, rule, assumpti
     cov = dict(traces_validated_against_impl=len(scns) - len(bad), evaluations=len(scns), events=nev, cases_from_model=ncases,
                cases_random=len(scns) - ncases if not replay else 0, distinct_nontrivial=nontrivial(scns) if nontrivial else len(scns),
                rule=rule, samples=V.sample_scenarios(scns), exhaustive=True, rejected_scenarios=len(bad))
+    if extra and not replay:
+        v2, c2 = extra()
+        verdict.violations += v2.violations
+        verdict.total_violating += v2.total_violating
+        verdict.unreproduced += v2.unreproduced
+        cov.update(c2)
+        cov["traces_validated_against_impl"] += c2.get("system_scenarios", 0) - c2.get("system_rejected", 0)
+        cov["evaluations"] += c2.get("system_scenarios", 0)
     return V.finish(ctx, pid, verdict, cov, assumptions)
+
+
+def system_stage(ctx, pid, replay=None):
+    """The composed system (spec/System.tla) through the plugin's own command line: rootCmd over a fake Docker CLI.
+    Returns (verdict, coverage-dict). Cases: MC_System's plus seeded random ones, completed (query text) by the harness."""
+    inv = ["WellFormed", "FromSelectedInWindow", "InTimeOrderOnce", "LimitIsPrefix", "MergeCommutes"]
+    trace = ctx.path("trace-system.ndjson")
+    ncases = 0
+    if replay:
+        cases = os.path.abspath(replay)
+    else:
+        hbin = V.build_harness(ctx)
+        mcases = ctx.path("cases-system-model.ndjson")
+        V.model_check(ctx, "system", "MC_System", dict(Pools=V.tla_str(T(ctx, "quick", "full"))), invariants=inv, cases_file=mcases, timeout=5400)
+        ncases = sum(1 for _ in open(mcases))
+        cases = ctx.path("cases-system.ndjson")
+        V.run_harness(ctx, hbin, ["cmdgen", "-cases", mcases, "-out", cases, "-rand", T(ctx, 600, 8000), "-seed", ctx.seed])
+    run_probe(ctx, "cmd", cases, trace, 0)
+    bad, scns, nev = V.validate_trace(ctx, "Trace_System", trace, chunk_events=8000)
+
+    def reexec(cf_, tf):
+        run_probe(ctx, "cmd", cf_, tf, 0)
+    verdict = V.classify_rejections(ctx, pid, "Trace_System", None, None, bad, scns, reexec=reexec)
+    cov = dict(system_scenarios=len(scns), system_cases_from_model=ncases, system_events=nev, system_rejected=len(bad),
+               system_rule="the composed specification System.tla (flags -> window -> container selection -> frames in the window merged in time "
+                           "order -> pipeline -> limit -> rendering) executed through the plugin's own cobra command (rootCmd over a fake Docker "
+                           "CLI: query --start --end --limit --timestamp --container --color <text>); MC_System checks the composition on "
+                           "two-container inventories (printed entries stem from selected containers inside the window, time order, limit is a "
+                           "prefix, filtering commutes with merging) and exports every case; random inventories of 1-4 containers; TLC "
+                           "recognises the printed bytes as the rendering of System!Printed")
+    return verdict, cov
 
 
 @prop("C16")
 def c16(ctx, replay):
+    if replay and json.loads(open(replay).readline())["in"].get("kind") == "cmd":
+        verdict, cov = system_stage(ctx, "C16", replay)
+        cov.update(traces_validated_against_impl=cov["system_scenarios"] - cov["system_rejected"], evaluations=cov["system_scenarios"], rule=cov["system_rule"])
+        return V.finish(ctx, "C16", verdict, cov, [])
     inv = ["ResolveMatches", "SpellingsAgree", "MalformedRejected", "StepPositive"]
     mcs = [dict(name="resolve", module="MC_Resolve", consts=dict(Pools=V.tla_str(T(ctx, "quick", "full"))), invariants=inv)]
 
@@ -492,7 +535,9 @@ def c16(ctx, replay):
                           "one flag present",
                      assumptions=["RFC3339 text is rendered by time.Format from the intended instant (trusted)",
                                   "fractional seconds are written with exactly three digits (finer digits left open); exponent spellings left open",
-                                  "an empty flag value counts as absent"])
+                                  "an empty flag value counts as absent",
+                                  "system stage: both window ends given as flags, frames at least two seconds away from them"],
+                     extra=lambda: system_stage(ctx, "C16"))
 
 
 @prop("C15")
